@@ -90,6 +90,8 @@ class RefServer:
 
     # ---------------------------------------------------------------- input
     def on_bytes(self, data):
+        if self.state == 'play' and self.cfg.get('ignore_play_bytes'):
+            return          # (the raw bytes are judged by the caller: framing may change in mid-stream)
         if self.dec is not None:
             data = self.dec.update(data)
         self.buf += data
